@@ -17,6 +17,7 @@ RULE = (
     "lat in [-90, 90] incl. poles, lon in [-540, 540] incl. +-180 / date line x geo_scale in {1, degree, km, 123.4} x temporal on/off x "
     "time ratios 0.01..100 x models valid in 3-D; Krige, SRF, CondSRF, vario_estimate(latlon), fit_variogram, standard_bins; "
     "all cases non-trivial"
+    " Also: unit equivariance of estimator, fit and Krige(fit_variogram=True) between geo_scale 1 and another unit."
 )
 ASSUMPTIONS = [
     "sphere geometry from gsverif/oracles/rot.py (xyz by cos/sin; central angle by atan2(|a x b|, a.b), independent of the haversine formula)",
